@@ -78,7 +78,13 @@ UFIELDS = {
     7: ("PackedValue<u64>", False),
     8: ("List<PackedValue<u64>>", False),
     9: ("bool", False),
+    # unsized enums (#[unsized_type] #[repr(u8)] enum): ZST_STATUS is the conjunction over the data-carrying variants'
+    # payload types, so one payload that may be empty makes the whole enum "may be zero sized / consumes the rest"
+    10: ("gen_c19::EnumMayEndEmpty", True),     # { Unit, Bytes(List<u8>), Rest(RemainingBytes) }
+    11: ("gen_c19::EnumNeverEmpty", False),     # { Unit, Bytes(List<u8>) }
+    12: ("gen_c19::EnumOfZstStruct", True),     # { Unit, Nested(ZstAtEnd) }
 }
+UENUMS = [10, 11, 12]
 INT_REPR = ["u8", "i8", "u16", "i16", "u32", "i32", "u64", "i64"]
 MACROS = {0: "#[derive(Align1)]", 1: "#[zero_copy]", 2: "#[zero_copy(skip_packed)]", 3: "#[zero_copy(pod)]",
           4: "#[zero_copy(pod, skip_packed)]", 5: "#[unsized_type(skip_idl)]",
@@ -93,7 +99,10 @@ RULE = ("declarations drawn from the grammar: macro {derive(Align1), zero_copy, 
         "attributes, any order} x 0-4 fields from {u8, bool, (), i8, [u8;N], PackedValue<u64|u16>, Pubkey, a u8 enum, "
         "NonZeroU8, [bool;2] | u16, u32, u64, u128, [u16;2]}; unsized structs additionally draw 1-3 unsized fields from "
         "{List<u8>, RemainingBytes, u8, (), a nested struct ending in RemainingBytes, a nested struct ending in a list, "
-        "[u8;0], PackedValue<u64>, List<PackedValue<u64>>, bool}; the documented valid forms and the D13 witnesses are "
+        "[u8;0], PackedValue<u64>, List<PackedValue<u64>>, bool, and three unsized enums (#[unsized_type] #[repr(u8)] enum "
+        "with a unit default variant plus: a List<u8> variant and a RemainingBytes variant | a List<u8> variant only | a "
+        "variant whose payload is the nested struct ending in RemainingBytes)}, each enum also placed systematically first / "
+        "last / alone / in the middle of the unsized fields; the documented valid forms and the D13 witnesses are "
         "always included. every declaration is compiled by cargo against /repo's working tree and every accepted one is "
         "executed. non-trivial = the declaration is accepted by the compiler (the marker is certified and its numbers are "
         "compared), or it is rejected by a decision of the macro under test or of an assertion it generates (repr conflicts, "
@@ -317,6 +326,34 @@ pub struct Inner {
     pub x: u8,
     #[unsized_start]
     pub list: List<u8>,
+}
+
+/// an unsized enum one of whose variants may be empty / consumes the rest of the data
+#[unsized_type(skip_idl)]
+#[repr(u8)]
+pub enum EnumMayEndEmpty {
+    #[default_init]
+    Unit,
+    Bytes(List<u8>),
+    Rest(RemainingBytes),
+}
+
+/// an unsized enum none of whose variants' payloads may be zero sized
+#[unsized_type(skip_idl)]
+#[repr(u8)]
+pub enum EnumNeverEmpty {
+    #[default_init]
+    Unit,
+    Bytes(List<u8>),
+}
+
+/// an unsized enum with a variant whose payload is a struct ending in a possibly zero-sized field
+#[unsized_type(skip_idl)]
+#[repr(u8)]
+pub enum EnumOfZstStruct {
+    #[default_init]
+    Unit,
+    Nested(ZstAtEnd),
 }
 
 pub fn assert_align1<T: Align1>() {}
@@ -606,9 +643,10 @@ def _gen_one(rng):
         nu = rng.weighted([(1, 40), (2, 40), (3, 20)])
         if rng.chance(1, 2):
             # zero-sized candidates only in last position (expected to compile)
-            uf = [rng.choice([0, 2, 5, 7, 8, 9]) for _ in range(nu - 1)] + [rng.choice(list(UFIELDS))]
+            uf = [rng.choice([0, 2, 5, 7, 8, 9, 11]) for _ in range(nu - 1)] + [rng.choice(list(UFIELDS))]
         else:
-            uf = [rng.weighted([(0, 30), (1, 15), (2, 8), (3, 8), (4, 10), (5, 10), (6, 5), (7, 5), (8, 5), (9, 4)]) for _ in range(nu)]
+            uf = [rng.weighted([(0, 30), (1, 15), (2, 8), (3, 8), (4, 10), (5, 10), (6, 5), (7, 5), (8, 5), (9, 4),
+                                (10, 9), (11, 7), (12, 7)]) for _ in range(nu)]
         reprs = _gen_reprs(rng, 0, 0) if rng.chance(1, 15) else []
         form = 0 if rng.chance(24, 25) else 1
         return enc(5, form, generic, reprs, [sized], uf)
@@ -683,6 +721,10 @@ def gen_cases(rng, tier):
             uf = [0, 0, 0]
             uf[pos] = z
             add(enc(5, 0, 0, [], [[0]], uf), "sys")
+    # unsized enums as fields of an unsized struct: first of two, last of two, alone, in the middle of three
+    for e in UENUMS:
+        for uf in ([e, 0], [0, e], [e], [0, e, 0]):
+            add(enc(5, 0, 0, [], [[0]], uf), "sys")
     # generic unsized types without the phantom marker: T instantiated with a type that has invalid bit patterns, in
     # every position of the sized part
     for gcode in (1, 7, 8, 0):
@@ -698,7 +740,7 @@ def gen_cases(rng, tier):
                     add(enc(0, form, 0, [(2, 0)], [fl]), "sys")
             add(enc(0, 1, w + 1, [(2, 0)], [[z, T_CODE]]), "sys")
             add(enc(0, 1, w + 1, [(2, 0)], [[T_CODE, z]]), "sys")
-    total = 520 if tier == "quick" else 5000
+    total = 532 if tier == "quick" else 5000
     guard = 0
     while len(out) < total and guard < total * 20:
         guard += 1
